@@ -15,6 +15,8 @@ Per JSONField subclass (found through JSONField.__subclasses__() of the running 
   from_json/update: must be the inherited JSONField ones, whose shape is checked statement by statement
                     (from_json: keys not in the fresh instance's __dict__ are filtered out before _set_fields)
   attrs           : dir(instance) minus fields (names for which __getattribute__ succeeds)
+Class-level mutable attributes on JSONField / its subclasses (other than the read-only tables UNITS, VALIDATORS,
+LAMBDA_VALIDATORS), run-time writes to class attributes, and unknown members of JSONField are refused.
 Anything else is an ExtractionError.
 Also emitted: NEO4j_NONE, JSONData MAX_SIZEs, typed-tuple type lists, str.isspace() code points,
 MaintenanceState names, PathRepresentationType names, MaintenanceEntry field names.
@@ -152,6 +154,49 @@ def _resolve(tree, cls, name):
     raise ExtractionError("%s has no %s" % (cls.__name__, name))
 
 
+BASE_MEMBERS = {"update", "_set_fields", "to_json", "from_json", "to_dict", "__repr__", "__str__", "list_fields"}
+CONST_TABLES = {"UNITS", "VALIDATORS", "LAMBDA_VALIDATORS"}     # class-level dict literals that are only ever read
+MUTATORS = {"update", "setdefault", "pop", "popitem", "clear", "append", "extend", "insert", "remove", "add", "discard", "__setitem__"}
+
+
+def _no_class_level_state(tree, class_names):
+    """A codec whose output depends on what the process did before cannot be modelled as a function of the value:
+    refuse class-level mutable attributes on JSONField and its subclasses (other than the constant tables, which
+    must never be written), and any member of the base class this translator does not know."""
+    for cn in class_names:
+        cd = find_class(tree, cn)
+        for st in cd.body:
+            if isinstance(st, (ast.Assign, ast.AnnAssign)):
+                targets = st.targets if isinstance(st, ast.Assign) else [st.target]
+                names = [t.id for t in targets if isinstance(t, ast.Name)]
+                v = st.value
+                mutable = isinstance(v, (ast.Dict, ast.List, ast.Set, ast.ListComp, ast.DictComp, ast.SetComp)) or \
+                    (isinstance(v, ast.Call) and getattr(v.func, "id", getattr(v.func, "attr", "")) in
+                     ("dict", "list", "set", "defaultdict", "OrderedDict", "Counter", "deque", "bytearray"))
+                for n in names:
+                    if mutable and n not in CONST_TABLES:
+                        raise ExtractionError("class-level mutable attribute %s.%s: the encoding could depend on what the process "
+                                              "encoded earlier (hidden state shared by instances/subclasses)" % (cn, n))
+            elif isinstance(st, (ast.FunctionDef, ast.AsyncFunctionDef)):
+                if cn == "JSONField" and st.name not in BASE_MEMBERS:
+                    raise ExtractionError("JSONField has a member this translator does not know: %s" % st.name)
+    # nothing writes a class-level table, and nothing assigns cls.X / <Class>.X / self.__class__.X at run time
+    for node in ast.walk(tree):
+        tgt = None
+        if isinstance(node, ast.Call) and isinstance(node.func, ast.Attribute) and node.func.attr in MUTATORS:
+            tgt = node.func.value
+        elif isinstance(node, (ast.Assign, ast.AugAssign, ast.Delete)):
+            ts = node.targets if isinstance(node, (ast.Assign, ast.Delete)) else [node.target]
+            for t in ts:
+                if isinstance(t, ast.Subscript):
+                    tgt = t.value
+                elif isinstance(t, ast.Attribute) and isinstance(t.value, ast.Name) and t.value.id in (["cls"] + list(class_names)):
+                    raise ExtractionError("class attribute %s.%s is assigned at run time" % (t.value.id, t.attr))
+        if isinstance(tgt, ast.Attribute) and tgt.attr in CONST_TABLES | {"_defaults"} or \
+                (isinstance(tgt, ast.Attribute) and isinstance(tgt.value, ast.Name) and tgt.value.id == "cls"):
+            raise ExtractionError("class-level table %s is modified at run time (line %d)" % (ast.unparse(tgt), node.lineno))
+
+
 def generate():
     tree, src = parse(REL)
     import fim.slivers.capacities_labels as cl
@@ -167,6 +212,7 @@ def generate():
     subs = cl.JSONField.__subclasses__()
     if not subs:
         raise ExtractionError("no JSONField subclasses")
+    _no_class_level_state(tree, ["JSONField"] + [c.__name__ for c in subs if c.__module__ == cl.__name__])
     report = {"classes": {}}
     body = ""
     specs = []
